@@ -109,12 +109,21 @@ func (s *session) loopWrite() {
 		}
 
 		vhook.At("redis.session.write.before_wait")
-		// NOTE: Don't wait for the request forever, the backend may never
-		// answer it while the session has been closed.
 		select {
 		case <-req.done:
-		case <-s.quit:
-			return
+		default:
+			// The responses of the previous requests may have been left in
+			// the buffer, don't hold them back until this one is answered.
+			if err = s.enc.Flush(); err != nil {
+				goto FAIL
+			}
+			// NOTE: Don't wait for the request forever, the backend may never
+			// answer it while the session has been closed.
+			select {
+			case <-req.done:
+			case <-s.quit:
+				return
+			}
 		}
 		// TODO(kirk91): abstract response
 		resp := req.Response()
